@@ -1407,3 +1407,7 @@ def replay(ctx, payload):
             print(json.dumps(json_tree(os.path.join(run.sbx, n, 'act')), indent=1))
     shutil.rmtree(run.root, ignore_errors=True)
     return 0
+
+
+def gen_tables(ctx):
+    common.source_tie('C15')
